@@ -1,0 +1,129 @@
+//go:build verif
+
+package tls
+
+import (
+	"crypto/cipher"
+	"errors"
+	"io"
+)
+
+// Verification hooks for property C25 (record layer).  Thin wrappers: build
+// halfConns the way the handshake does, call encrypt/decrypt/extractPadding,
+// dump the suite tables.
+
+// VerifC25Suite is a read-only view of one suite table entry.
+type VerifC25Suite struct {
+	ID     uint16
+	KeyLen int
+	MACLen int
+	IVLen  int
+	Kind   string // "stream", "cbc", "aead"
+	TLS12  bool   // suiteTLS12 flag
+	TLS13  bool
+	ECSign bool // suiteECSign or suiteECDSA flag
+	DSS    bool
+	Index  int
+}
+
+// VerifC25Suites dumps implementedCipherSuites (in table order, duplicates
+// included) followed by cipherSuitesTLS13.
+func VerifC25Suites() []VerifC25Suite {
+	var out []VerifC25Suite
+	for i, s := range implementedCipherSuites {
+		v := VerifC25Suite{ID: s.id, KeyLen: s.keyLen, MACLen: s.macLen, IVLen: s.ivLen, Index: i,
+			TLS12: s.flags&suiteTLS12 != 0, ECSign: s.flags&(suiteECSign|suiteECDSA) != 0, DSS: s.flags&suiteDSS != 0}
+		switch {
+		case s.aead != nil:
+			v.Kind = "aead"
+		case s.cipher != nil:
+			switch s.cipher(make([]byte, s.keyLen), make([]byte, s.ivLen), false).(type) {
+			case cipher.Stream:
+				v.Kind = "stream"
+			default:
+				v.Kind = "cbc"
+			}
+		}
+		out = append(out, v)
+	}
+	for i, s := range cipherSuitesTLS13 {
+		out = append(out, VerifC25Suite{ID: s.id, KeyLen: s.keyLen, IVLen: aeadNonceLength, Kind: "aead", TLS13: true, Index: i})
+	}
+	return out
+}
+
+// VerifC25Half wraps one halfConn.
+type VerifC25Half struct {
+	hc      halfConn
+	version uint16
+}
+
+// VerifC25NewHalf builds one direction of the record layer exactly as
+// establishKeys + changeCipherSpec do for TLS <= 1.2 (forRead selects the
+// decrypting cipher instance).
+func VerifC25NewHalf(version, suiteID uint16, key, iv, macKey []byte, forRead bool) (*VerifC25Half, error) {
+	s := cipherSuiteByID(suiteID)
+	if s == nil {
+		return nil, errors.New("verif: unknown suite")
+	}
+	h := &VerifC25Half{version: version}
+	if s.cipher != nil {
+		h.hc.prepareCipherSpec(version, s.cipher(key, iv, forRead), s.mac(macKey))
+	} else {
+		h.hc.prepareCipherSpec(version, s.aead(key, iv), nil)
+	}
+	if err := h.hc.changeCipherSpec(); err != nil {
+		return nil, err
+	}
+	return h, nil
+}
+
+// VerifC25NewHalf13 builds one direction for TLS 1.3 from a traffic secret,
+// as the TLS 1.3 handshake does.
+func VerifC25NewHalf13(suiteID uint16, trafficSecret []byte) (*VerifC25Half, error) {
+	s := cipherSuiteTLS13ByID(suiteID)
+	if s == nil {
+		return nil, errors.New("verif: unknown TLS 1.3 suite")
+	}
+	h := &VerifC25Half{version: VersionTLS13}
+	h.hc.version = VersionTLS13
+	h.hc.setTrafficSecret(s, trafficSecret)
+	return h, nil
+}
+
+// Encrypt builds the record header as writeRecordLocked does (record version
+// = negotiated version, 0x0303 for TLS 1.3) and calls halfConn.encrypt.
+func (h *VerifC25Half) Encrypt(typ uint8, payload []byte, rand io.Reader) ([]byte, error) {
+	vers := h.version
+	if vers == VersionTLS13 {
+		vers = VersionTLS12
+	}
+	m := len(payload)
+	hdr := []byte{typ, byte(vers >> 8), byte(vers), byte(m >> 8), byte(m)}
+	return h.hc.encrypt(hdr, payload, rand)
+}
+
+// Decrypt calls halfConn.decrypt on a complete record (header + body).  The
+// record buffer is modified in place, as in readRecordOrCCS.
+func (h *VerifC25Half) Decrypt(record []byte) (plaintext []byte, typ uint8, err error) {
+	p, t, err := h.hc.decrypt(record)
+	return p, uint8(t), err
+}
+
+// Seq returns the current sequence number.
+func (h *VerifC25Half) Seq() uint64 {
+	var v uint64
+	for _, b := range h.hc.seq {
+		v = v<<8 | uint64(b)
+	}
+	return v
+}
+
+// ExplicitNonceLen exposes halfConn.explicitNonceLen.
+func (h *VerifC25Half) ExplicitNonceLen() int { return h.hc.explicitNonceLen() }
+
+// VerifC25ExtractPadding calls extractPadding.
+func VerifC25ExtractPadding(payload []byte) (toRemove int, good byte) { return extractPadding(payload) }
+
+// VerifC25Limits returns maxPlaintext, maxCiphertext, maxCiphertextTLS13.
+func VerifC25Limits() (int, int, int) { return maxPlaintext, maxCiphertext, maxCiphertextTLS13 }
